@@ -60,7 +60,9 @@ def source_variant():
     if p.returncode != 0:
         raise RuntimeError("srcfacts probe failed on %s: %s" % (REPO, p.stderr.decode()[-800:]))
     f = json.loads(p.stdout.decode())
-    return ("Fixed" if not f["shared_write_sites"] else "Current"), f
+    # (a tree with OTHER new write sites breaks SF_inventory anyway; the decimal-context variant only depends on this one)
+    cur = any("read_decimal" in x and "decimal_context" in x for x in f["shared_write_sites"])
+    return ("Current" if cur else "Fixed"), f
 
 
 def run_history(calls, scratch, tag):
@@ -109,7 +111,8 @@ def closure(calls, k, force=False, failed=()):
     dictionaries and everything parsed into them, opened readers), in order, followed by call k itself."""
     need = set(slot_refs(calls[k]))
     if not need:
-        return [calls[k]] if force else None     # data objects shared with earlier calls: the call alone, pristine data
+        # data objects shared with earlier calls: the call alone, data as the caller made (and later edited) them
+        return ([c for c in calls[:k] if c["api"] == "mutate"] + [calls[k]]) if force else None
     changed = True
     while changed:
         changed = False
@@ -129,7 +132,7 @@ def closure(calls, k, force=False, failed=()):
     # object, so the later calls must give what they give when the failed call never happened
     idx = [j for j in range(k) if calls[j].get("$out") in need or
            (isinstance(calls[j].get("named_schemas"), dict) and calls[j]["named_schemas"].get("$slot") in need) or
-           (mutates(calls[j]) and j not in failed)]
+           (mutates(calls[j]) and j not in failed) or calls[j]["api"] == "mutate"]     # the caller's own edits of its data
     return [calls[j] for j in idx] + [calls[k]]
 
 
